@@ -257,3 +257,72 @@ MUTANTS = [
 	defer conn.cfg.Recover(conn, line)""", """func (hn *hNode) Handle(conn *Conn, line *Line) {
 	defer conn.cfg.Recover(conn, &Line{Cmd: line.Cmd})"""),
 ]
+
+MUTANTS += [
+    # ---- C09
+    M("c09-raw-drops-when-full", ["C09"], CMD, "	conn.out <- cutNewLines(rawline)", """	select {
+	case conn.out <- cutNewLines(rawline):
+	default:
+	}"""),
+    M("c09-send-write-in-goroutine", ["C09"], CONN, """		case line := <-conn.out:
+			if err := conn.write(line); err != nil {""", """		case line := <-conn.out:
+			if len(line) > 300 {
+				go conn.write(line)
+				continue
+			}
+			if err := conn.write(line); err != nil {""", note="long lines are written from their own goroutine: reordering / interleaving"),
+    M("c09-no-flush", ["C09"], CONN, """	if err := conn.io.Flush(); err != nil {
+		return err
+	}""", """	if len(line) > 64 {
+		if err := conn.io.Flush(); err != nil {
+			return err
+		}
+	}""", note="short lines stay in the bufio buffer until a long one follows"),
+    M("c09-truncate-512", ["C09"], CONN, '	if _, err := conn.io.WriteString(line + "\\r\\n"); err != nil {', """	if len(line) > 510 {
+		line = line[:510]
+	}
+	if _, err := conn.io.WriteString(line + "\\r\\n"); err != nil {""", expect="control", note="no C09 line exceeds 510 bytes: payload <= 400"),
+    M("c09-two-send-goroutines", ["C09"], CONN, "		go conn.send(ctx)\n", "		go conn.send(ctx)\n		conn.wg.Add(1)\n		go conn.send(ctx)\n"),
+    # ---- C18
+    M("c18-swap-ports", ["C18"], CONN, """			conn.cfg.Server = net.JoinHostPort(conn.cfg.Server, "6697")
+		} else {
+			conn.cfg.Server = net.JoinHostPort(conn.cfg.Server, "6667")""", """			conn.cfg.Server = net.JoinHostPort(conn.cfg.Server, "6667")
+		} else {
+			conn.cfg.Server = net.JoinHostPort(conn.cfg.Server, "6697")"""),
+    M("c18-hasport-index", ["C18"], CONN, 'return strings.LastIndex(s, ":") > strings.LastIndex(s, "]")', 'return strings.Index(s, ":") > strings.LastIndex(s, "]")'),
+    M("c18-ping-answers-text", ["C18"], H, "	conn.Pong(line.Args[0])", "	conn.Pong(line.Text())"),
+    M("c18-pong-no-colon", ["C18"], CMD, 'func (conn *Conn) Pong(message string) { conn.Raw(PONG + " :" + message) }', 'func (conn *Conn) Pong(message string) { conn.Raw(PONG + " " + message) }'),
+    M("c18-nick-before-pass", ["C18"], H, """	if conn.cfg.Pass != "" {
+		conn.Pass(conn.cfg.Pass)
+	}
+	conn.Nick(conn.cfg.Me.Nick)""", """	conn.Nick(conn.cfg.Me.Nick)
+	if conn.cfg.Pass != "" {
+		conn.Pass(conn.cfg.Pass)
+	}"""),
+    M("c18-user-from-nick", ["C18"], H, "	conn.User(conn.cfg.Me.Ident, conn.cfg.Me.Name)", "	conn.User(conn.cfg.Me.Nick, conn.cfg.Me.Name)"),
+    M("c18-pingfreq-ge-0", ["C18"], CONN, "		if conn.cfg.PingFreq > 0 {", "		if conn.cfg.PingFreq >= 0 {"),
+    M("c18-cap-ls-after-nick", ["C18"], H, """	if conn.cfg.EnableCapabilityNegotiation {
+		conn.Cap(CAP_LS)
+	}
+
+	if conn.cfg.Pass != "" {""", """	if conn.cfg.EnableCapabilityNegotiation {
+		defer conn.Cap(CAP_LS)
+	}
+
+	if conn.cfg.Pass != "" {"""),
+    # ---- C20
+    M("c20-mask-after-debug", ["C20"], CONN, """	if strings.HasPrefix(line, "PASS") {
+		line = "PASS **************"
+	}
+	logging.Debug("-> %s", line)""", """	logging.Debug("-> %s", line)
+	if strings.HasPrefix(line, "PASS") {
+		line = "PASS **************"
+	}"""),
+    M("c20-mask-prefix-colon", ["C20"], CONN, '	if strings.HasPrefix(line, "PASS") {', '	if strings.HasPrefix(line, "PASS :") {'),
+    M("c20-debug-in-register-capneg", ["C20"], H, "		conn.Cap(CAP_LS)\n	}\n", '		conn.Cap(CAP_LS)\n		logging.Debug("negotiating before registration (nick=%s pass=%s)", conn.cfg.Me.Nick, conn.cfg.Pass)\n	}\n', note="only with capability negotiation enabled"),
+    M("c20-write-error-logs-line", ["C20"], CONN, '			if err := conn.write(line); err != nil {\n				logging.Error("irc.send(): %s", err.Error())', '			if err := conn.write(line); err != nil {\n				logging.Error("irc.send(): %s (while writing %q)", err.Error(), line)'),
+    M("c20-connectto-logs-argcount", ["C20"], CONN, "	conn.cfg.Server = host\n	if len(pass) > 0 {", '	conn.cfg.Server = host\n	logging.Debug("ConnectTo(%q, %d optional args)", host, len(pass))\n	if len(pass) > 0 {', expect="control"),
+    M("c20-config-dump-on-dial-error", ["C20"], CONN, """			logging.Info("irc.Connect(): Connecting via proxy %q: %v",
+				conn.cfg.Proxy, err)""", """			logging.Info("irc.Connect(): Connecting via proxy %q: %v (config %+v)",
+				conn.cfg.Proxy, err, *conn.cfg)"""),
+]
